@@ -792,13 +792,24 @@ class ModuleVistor(NodeVisitor):
             annotation = unstring_annotation(ast.Constant(type_comment, lineno=lineno), self.builder.current)
 
         for target in node.targets:
-            if isinstance(target, ast.Tuple):
-                for elem in target.elts:
-                    # Note: We skip type and aliasing analysis for this case,
-                    #       but we do record line numbers.
-                    self._handleAssignment(elem, None, None, lineno)
+            if isinstance(target, (ast.Tuple, ast.List)):
+                self._handleUnpacking(target, lineno)
             else:
                 self._handleAssignment(target, annotation, expr, lineno)
+
+    def _handleUnpacking(self, target: Union[ast.Tuple, ast.List], lineno: int) -> None:
+        """
+        Handle the names bound by C{a, b = ...}, C{[a, b] = ...}, C{a, (b, *c) = ...}.
+        """
+        for elem in target.elts:
+            if isinstance(elem, ast.Starred):
+                elem = elem.value
+            if isinstance(elem, (ast.Tuple, ast.List)):
+                self._handleUnpacking(elem, lineno)
+            else:
+                # Note: We skip type and aliasing analysis for this case,
+                #       but we do record line numbers.
+                self._handleAssignment(elem, None, None, lineno)
 
     def visit_AnnAssign(self, node: ast.AnnAssign) -> None:
         annotation = unstring_annotation(node.annotation, self.builder.current)
